@@ -33,7 +33,12 @@ type CollationOrderKey[K chars | []rune] struct {
 func (cok *CollationOrderKey[K]) Transform(k K) ([]byte, []byte) {
 	cok.src = k
 	b := []byte(string(k))
-	return b, cok.c.Key(cok.buf, b)
+
+	// the returned sort key is a copy: the buffer is reused for the next
+	// key instead of growing with every operation
+	key := append([]byte(nil), cok.c.Key(cok.buf, b)...)
+	cok.buf.Reset()
+	return b, key
 }
 func (cok *CollationOrderKey[K]) Restore(b []byte) K { return cok.src }
 
